@@ -2,8 +2,11 @@ SPECIFICATION Spec
 CONSTANTS NAsg = 4
  NGrd = 3
  NAnn = 3
- NPre = 2
- NPost = 5
+ NInA = 2
+ NInG = 1
+ NPre = 1
+ NPost = 4
+ NNatPost = 3
  Deep = FALSE
 INVARIANT Sound
 INVARIANT ExecAgrees
